@@ -326,6 +326,11 @@ def strat_fit(draw, tier):
     )
 
 
+RATE_LIMITS = [
+    ("order_dependent:dependence", "fit/n_dim=2", 0.03, 100),
+    ("order_dependent_outcome", "fit/n_dim=2", 0.03, 100),
+]
+
 PARTS = [
     Part("fit", check_fit, lambda tier: strat_fit(tier), quick=250, thorough=5000, shrink=False, min_per_shard=4, min_nontrivial_frac=0.3),
 ]
